@@ -377,8 +377,8 @@ func iterationOutcomes(start *ssa.BasicBlock, eval func(cond ssa.Value) (known, 
 	seen := map[*ssa.BasicBlock]bool{}
 	var walk func(b *ssa.BasicBlock, first bool)
 	walk = func(b *ssa.BasicBlock, first bool) {
-		if !first && b != start && b.Dominates(start) {
-			out["continue"] = true
+		if !first && (b == start || b.Dominates(start)) {
+			out["continue"] = true // back at the loop header (a rotated loop's header is the first block of the body itself)
 			return
 		}
 		if seen[b] {
@@ -396,6 +396,10 @@ func iterationOutcomes(start *ssa.BasicBlock, eval func(cond ssa.Value) (known, 
 			out["return ?"] = true
 		case *ssa.If:
 			c, pol := normCond(last.Cond, true)
+			if isLatch(b, start) {
+				out["continue"] = true
+				return
+			}
 			if known, val := eval(c); known {
 				if val == pol {
 					walk(b.Succs[0], false)
@@ -403,6 +407,15 @@ func iterationOutcomes(start *ssa.BasicBlock, eval func(cond ssa.Value) (known, 
 					walk(b.Succs[1], false)
 				}
 				return
+			}
+			// the latch of a rotated loop ("i < n" tested at the bottom): the iteration ends here; leaving the loop
+			// because the collection is exhausted is not an outcome of the iteration
+			for i, s := range b.Succs {
+				other := b.Succs[1-i]
+				if (s == start || s.Dominates(start)) && other != start && !blockReaches(other, start) {
+					out["continue"] = true
+					return
+				}
 			}
 			walk(b.Succs[0], false)
 			walk(b.Succs[1], false)
@@ -416,6 +429,21 @@ func iterationOutcomes(start *ssa.BasicBlock, eval func(cond ssa.Value) (known, 
 	}
 	walk(start, true)
 	return out
+}
+
+// isLatch: b ends the iteration of a rotated loop — one successor is the back edge to the first block of the
+// body, the other leaves the loop for good.
+func isLatch(b, start *ssa.BasicBlock) bool {
+	if len(b.Succs) != 2 {
+		return false
+	}
+	for i, s := range b.Succs {
+		other := b.Succs[1-i]
+		if (s == start || s.Dominates(start)) && other != start && !blockReaches(other, start) {
+			return true
+		}
+	}
+	return false
 }
 
 // ---- predicate helpers -------------------------------------------------------
